@@ -1178,6 +1178,7 @@ package astits
 //@ func NewMuxer
 //@   opt noframe
 //@   opt noloopframe
+//@   loop 0 invariant [C17,C01] untouched: rangeindex == iter - 1 && iter <= len(opts) && (iter == 0 ==> m.nextPID == 0x100)
 //@   ensures [C17] start: result != nil && result.tablesRetransmitCounter == result.tablesRetransmitPeriod
 //@   ensures [C17,C01] startpid: len(opts) == 0 ==> result.nextPID == 0x100
 // A Muxer option is library code handed a *Muxer: it may set any of its fields.
